@@ -118,3 +118,23 @@ func SealEntry(e *factom.Entry) {
 	h := factom.ComputeEntryHash(data)
 	e.Hash = &h
 }
+
+// JSONDoc writes the compact JSON object {"k1":v1,"k2":v2,...} with the given raw values, in the
+// given order (keys may repeat or be unknown to the decoder - that is the point). Under the
+// symbolic engine the document is an ordered list of (key, opaque raw value) with a length.
+func JSONDoc(keys []string, vals [][]byte) []byte {
+	out := []byte{'{'}
+	for i, k := range keys {
+		if i > 0 {
+			out = append(out, ',')
+		}
+		kb, _ := json.Marshal(k)
+		out = append(out, kb...)
+		out = append(out, ':')
+		out = append(out, vals[i]...)
+	}
+	return append(out, '}')
+}
+
+// RawJSON is a raw JSON value given by its text (`[]`, `null`, `"m"`, `1`).
+func RawJSON(text string) []byte { return []byte(text) }
